@@ -358,9 +358,12 @@ class Evaluator:
         for n in self._assigned(stmts):
             if isinstance(n, str):
                 env[n] = ("sym", "%s@%s" % (n, tag))
-        # stored attribute/subscript facts become unknown
+        # stored attribute/subscript facts rooted at something the loop body mutates become unknown
+        muts = self._assigned(stmts)
         for k in [k for k in env if isinstance(k, tuple)]:
-            del env[k]
+            root, first_attr = _root_of(k)
+            if root is None or root in muts or (root == "self" and ("self." + str(first_attr)) in muts):
+                del env[k]
         return env
 
     def _join(self, cond, a, b):
@@ -874,10 +877,30 @@ def _target_names(t):
         return _target_names(t.value)
     if isinstance(t, (ast.Subscript, ast.Attribute)):
         b = t.value
+        first = t.attr if isinstance(t, ast.Attribute) else None
         while isinstance(b, (ast.Subscript, ast.Attribute)):
+            if isinstance(b, ast.Attribute):
+                first = b.attr
             b = b.value
-        return [b.id] if isinstance(b, ast.Name) and b.id != "self" else []
+        if isinstance(b, ast.Name) and b.id == "self":
+            return ["self." + str(first)]
+        return [b.id] if isinstance(b, ast.Name) else []
     return []
+
+
+def _root_of(term):
+    """(root symbol name, first attribute) of an lvalue term like self.a.b[c]."""
+    first = None
+    t = term
+    while isinstance(t, tuple) and t and t[0] in ("attr", "sub", "item"):
+        if t[0] == "attr":
+            first = t[2]
+        t = t[1]
+    if isinstance(t, tuple) and t and t[0] == "sym":
+        return t[1].split("@")[0], first
+    if isinstance(t, tuple) and t and t[0] == "new":
+        return t[1], first
+    return None, first
 
 
 def _as_load(t):
